@@ -133,10 +133,7 @@ func runConc(en Engine, setup []Call, threads [][]Call, sched []int, final []Cal
 	st, cleanup := en.mk()
 	defer cleanup()
 	e := NewEmu(st)
-	defer func() {
-		defer func() { _ = recover() }()
-		e.v.Close()
-	}()
+	defer closeEmu(e)
 	c := &ConcCase{Store: en.name, Tag: tag, Setup: setup, Threads: threads, Final: final, Bulk: bulk}
 	for _, s := range setup {
 		if r := e.Exec(s); r.Code != 0 {
@@ -155,7 +152,7 @@ func runConc(en Engine, setup []Call, threads [][]Call, sched []int, final []Cal
 	for round := 0; round < 400; round++ {
 		busy := false
 		for i, t := range s.threads {
-			if t.running || t.parked != "" || len(t.todo) > 0 {
+			if !t.dead && (t.running || t.parked != "" || len(t.todo) > 0) {
 				busy = true
 				step(i)
 			}
